@@ -346,4 +346,218 @@ theorem report_fields_lt (nb i : ℕ) (lat lon : ℚ) :
   · show (Spec.Cpr.xz nb i (Spec.Cpr.rlat nb i lat) lon % 131072).toNat < 131072
     omega
 
+/-! ### the complete float-level model of `airborne_position_with_reference` / `surface_position_with_reference` -/
+
+section LocalAsmDefs
+variable (fl : ℚ → ℚ)
+/-- l.337 / 402 `lat = d_lat * (j + cpr_lat)` with `j` of l.335 / 400 -/
+def fLatOf (full : ℚ) (m : Msg) (latRef : ℚ) : ℚ :=
+  fCoord fl (fDLat fl full m) (fIdx fl latRef (fDLat fl full m) m.lat) m.lat
+/-- l.347-351 / 412-416 `ni = if even { nl(lat) } else { nl(lat) - 1 }` (`u64`; `fNl ≥ 1`, no underflow) -/
+def fNi (m : Msg) (lat : ℚ) : ℕ := fNl fl lat - fmt m
+/-- l.352-361 / 417-426 -/
+def fLonOf (full : ℚ) (m : Msg) (lat lonRef : ℚ) : ℚ :=
+  fCoord fl (fDLon fl full (fNi fl m lat)) (fIdx fl lonRef (fDLon fl full (fNi fl m lat)) m.lon) m.lon
+/-- l.343, 364 / 408, 429 `fabs(x - ref) > d / 2.` on the f64 values -/
+def fHalfFar (x ref d : ℚ) : Prop := fabs (fl (x - ref)) > fl (d / 2)
+instance (x ref d : ℚ) : Decidable (fHalfFar fl x ref d) := by unfold fHalfFar; infer_instance
+
+/-- `Model.Cpr.withRef` (normal form `Proofs.Cpr.withRef_eq`) on the f64 values -/
+def fWithRef (full : ℚ) (m : Msg) (latRef lonRef : ℚ) : Option (ℚ × ℚ) :=
+  if inLatRange (fLatOf fl full m latRef) = false then none
+  else if fHalfFar fl (fLatOf fl full m latRef) latRef (fDLat fl full m) then none
+  else if fHalfFar fl (fLonOf fl full m (fLatOf fl full m latRef) lonRef) lonRef
+      (fDLon fl full (fNi fl m (fLatOf fl full m latRef))) then none
+  else some (fLatOf fl full m latRef, fLonOf fl full m (fLatOf fl full m latRef) lonRef)
+
+/-- `pub fn airborne_position_with_reference(msg, latitude_ref, longitude_ref)` in f64 -/
+def fAirborneWithRef (m : Msg) (latRef lonRef : ℚ) : Option (ℚ × ℚ) := fWithRef fl 360 m latRef lonRef
+/-- `pub fn surface_position_with_reference(msg, latitude_ref, longitude_ref)` in f64 -/
+def fSurfaceWithRef (m : Msg) (latRef lonRef : ℚ) : Option (ℚ × ℚ) := fWithRef fl 90 m latRef lonRef
+end LocalAsmDefs
+
+/-- the decoded coordinate is within half a zone of the reference (before any test) -/
+theorem coord_near {d ref : ℚ} (k : ℕ) (hd : 0 < d) :
+    |d * ((⌊gIdxArg ref d k⌋ : ℚ) + (k : ℚ) / 131072) - ref| ≤ d / 2 := by
+  generalize hA : gIdxArg ref d k = A
+  have hAeq : A = 1 / 2 + ref / d - (k : ℚ) / 131072 := by rw [← hA]; rfl
+  have h0 : ((⌊A⌋ : ℤ) : ℚ) ≤ A := Int.floor_le A
+  have h1 : A < ((⌊A⌋ : ℤ) : ℚ) + 1 := Int.lt_floor_add_one A
+  have e : d * ((⌊A⌋ : ℚ) + (k : ℚ) / 131072) - ref = d * ((⌊A⌋ : ℚ) - A + 1 / 2) := by
+    rw [hAeq]; field_simp; ring
+  rw [e, abs_le]
+  constructor <;> nlinarith
+
+/-- **the half-cell test** `fabs(x - ref) > d / 2.` on the f64 values is decided as on the exact values unless the
+    exact `|x − ref|` is within `10⁻¹¹` of `d / 2` -/
+theorem half_cmp (R : Rounding fl) {x' x ref d' d : ℚ} (hx : |x' - x| ≤ 1 / 10 ^ 12)
+    (hd : 3 / 2 ≤ d) (hd360 : d ≤ 360) (hd' : |d' - d| ≤ d * u + 1 / 2 ^ 100) (hxr : |x - ref| ≤ 200)
+    (far : 1 / 10 ^ 11 < abs (|x - ref| - d / 2)) : fHalfFar fl x' ref d' ↔ |x - ref| > d / 2 := by
+  have hxx := abs_le.mp hx
+  have hxr' := abs_le.mp hxr
+  have hdd := abs_le.mp hd'
+  have hu : d * u + 1 / 2 ^ 100 ≤ 1 / 10 ^ 13 := by
+    have : d * u ≤ 360 * u := mul_le_mul_of_nonneg_right hd360 (le_of_lt u_pos)
+    have : 360 * u + 1 / 2 ^ 100 ≤ 1 / 10 ^ 13 := by unfold u; norm_num
+    linarith
+  have b1 : |x' - ref| ≤ 256 := by rw [abs_le]; constructor <;> linarith
+  have r1 := abs_le.mp (R.abs_err b1 (by norm_num))
+  have b2 : |d' / 2| ≤ 256 := by rw [abs_le]; constructor <;> linarith
+  have r2 := abs_le.mp (R.abs_err b2 (by norm_num))
+  have hu2 : 256 * u + 1 / 2 ^ 100 ≤ 1 / 10 ^ 13 := by unfold u; norm_num
+  -- |fl(x' - ref)| vs |x - ref|
+  have ha : abs (|fl (x' - ref)| - |x - ref|) ≤ 2 / 10 ^ 12 := by
+    refine le_trans (abs_abs_sub_abs_le_abs_sub _ _) ?_
+    rw [abs_le]; constructor <;> linarith
+  have ha' := abs_le.mp ha
+  unfold fHalfFar
+  rw [fabs_eq_abs]
+  rcases le_or_gt 0 (|x - ref| - d / 2) with hs | hs
+  · rw [abs_of_nonneg hs] at far
+    constructor <;> intro _ <;> simp only [gt_iff_lt] <;> linarith
+  · rw [abs_of_neg hs] at far
+    constructor <;> intro h <;> simp only [gt_iff_lt] at h ⊢ <;> linarith
+
+theorem inLatRange_eq_of_far {x' x ε : ℚ} (h : |x' - x| ≤ ε) (f1 : ε < |x - 90|) (f2 : ε < |x + 90|) :
+    inLatRange x' = inLatRange x := by
+  have r1 : (x' ≤ 90 ↔ x ≤ 90) := le_iff_of_far h f1
+  have r2 : (x' ≥ -90 ↔ x ≥ -90) := ge_iff_of_far h (by rw [sub_neg_eq_add]; exact f2)
+  unfold inLatRange
+  rw [decide_eq_decide.mpr r1]
+  have : decide (-90 ≤ x') = decide (-90 ≤ x) := decide_eq_decide.mpr r2
+  rw [this]
+
+/-- l.352 / 417 with `ni = nl(lat) - i` (`u64`): one rounding of the model's `d_lon = full / max(nl(lat) − i, 1)` -/
+theorem fDLon_niOf (R : Rounding fl) (full : ℚ) (hf : full = 360 ∨ full = 90) (i : ℕ) (lat : ℚ) :
+    |fDLon fl full (nl lat - i) - full / (niOf i lat : ℚ)| ≤ full / (niOf i lat : ℚ) * u + 1 / 2 ^ 100 ∧
+      3 / 2 ≤ full / (niOf i lat : ℚ) ∧ full / (niOf i lat : ℚ) ≤ 360 := by
+  have hr := nl_range lat
+  by_cases h : 1 ≤ nl lat - i
+  · have e : niOf i lat = nl lat - i := by unfold niOf; exact max_eq_left h
+    rw [e]
+    exact fDLon_err R full hf (nl lat - i) h (by omega)
+  · have h0 : nl lat - i = 0 := by omega
+    have e : niOf i lat = 1 := by unfold niOf; rw [h0]; rfl
+    have hu : (0 : ℚ) ≤ full * u + 1 / 2 ^ 100 := by
+      have := u_pos
+      rcases hf with h | h <;> rw [h] <;> positivity
+    rw [e, h0]
+    unfold fDLon
+    simp only [gt_iff_lt, lt_self_iff_false, if_false, Nat.cast_one, div_one, sub_self, abs_zero]
+    refine ⟨hu, ?_, ?_⟩ <;> rcases hf with h | h <;> rw [h] <;> norm_num
+
+/-- **The margin hypothesis of the local decoders** at distance `δ`: the two floor arguments stay `δ` away from
+    the integers, the latitude `δ` away from ±90 and from every NL transition latitude, and the two half-cell
+    tests `δ` away from equality — all on the EXACT values. -/
+structure LocalMarginAt (δ full : ℚ) (m : Msg) (latRef lonRef : ℚ) : Prop where
+  latIdx_lo : (⌊gIdxArg latRef (dLatOf full m) m.lat⌋ : ℚ) + δ ≤ gIdxArg latRef (dLatOf full m) m.lat
+  latIdx_hi : gIdxArg latRef (dLatOf full m) m.lat + δ < (⌊gIdxArg latRef (dLatOf full m) m.lat⌋ : ℚ) + 1
+  lat_90 : δ < |latOf full m latRef - 90|
+  lat_m90 : δ < |latOf full m latRef + 90|
+  lat_half : δ < abs (|latOf full m latRef - latRef| - dLatOf full m / 2)
+  lat_nl : nlFar δ (latOf full m latRef)
+  lonIdx_lo : (⌊gIdxArg lonRef (dLonOf full m (latOf full m latRef)) m.lon⌋ : ℚ) + δ
+      ≤ gIdxArg lonRef (dLonOf full m (latOf full m latRef)) m.lon
+  lonIdx_hi : gIdxArg lonRef (dLonOf full m (latOf full m latRef)) m.lon + δ
+      < (⌊gIdxArg lonRef (dLonOf full m (latOf full m latRef)) m.lon⌋ : ℚ) + 1
+  lon_half : δ < abs (|lonOf full m (latOf full m latRef) lonRef - lonRef|
+      - dLonOf full m (latOf full m latRef) / 2)
+
+/-- the margin of the assembled local theorem: `δ = 10⁻⁹` -/
+abbrev LocalMargin (full : ℚ) (m : Msg) (latRef lonRef : ℚ) : Prop := LocalMarginAt (1 / 10 ^ 9) full m latRef lonRef
+
+theorem withRef_f64_close_at (R : Rounding fl) (full : ℚ) (hf : full = 360 ∨ full = 90) (m : Msg)
+    (hm : m.lat < 131072 ∧ m.lon < 131072) (latRef lonRef : ℚ) (hlr : |latRef| ≤ 360) (hor : |lonRef| ≤ 360)
+    {δ : ℚ} (hδ : 1 / 10 ^ 11 ≤ δ) (M : LocalMarginAt δ full m latRef lonRef) :
+    Close (1 / 10 ^ 11) (fWithRef fl full m latRef lonRef) (withRef full m latRef lonRef) := by
+  have hδ1 : (1 : ℚ) / 10 ^ 12 ≤ δ := le_trans (by norm_num) hδ
+  have hδ2 : (1 : ℚ) / 10 ^ 12 < δ := lt_of_lt_of_le (by norm_num) hδ
+  -- latitude
+  obtain ⟨dl1, dl2, dl3⟩ := fDLat_err R full hf m
+  obtain ⟨_, idx, crd⟩ := local_axis R m.lat hm.1 dl2 dl3 dl1 hlr
+  have hJ := idx (by linarith [M.latIdx_lo]) (by linarith [M.latIdx_hi])
+  have hLat : |fLatOf fl full m latRef - latOf full m latRef| ≤ 1 / 10 ^ 12 := by
+    unfold fLatOf; rw [hJ, latOf_eq]; exact crd
+  have hR : inLatRange (fLatOf fl full m latRef) = inLatRange (latOf full m latRef) :=
+    inLatRange_eq_of_far hLat (lt_trans hδ2 M.lat_90) (lt_trans hδ2 M.lat_m90)
+  have near1 : |latOf full m latRef - latRef| ≤ 200 := by
+    rw [latOf_eq]; exact le_trans (coord_near m.lat (by linarith)) (by linarith)
+  have hH1 := half_cmp R hLat dl2 dl3 dl1 near1 (lt_of_le_of_lt hδ M.lat_half)
+  have hN : fNl fl (fLatOf fl full m latRef) = nl (latOf full m latRef) :=
+    fNl_eq_of_far R hLat (nlFar_mono (le_trans (by norm_num) hδ) M.lat_nl)
+  -- longitude
+  obtain ⟨o1, o2, o3⟩ := fDLon_niOf R full hf (fmt m) (latOf full m latRef)
+  have hNi : fNi fl m (fLatOf fl full m latRef) = nl (latOf full m latRef) - fmt m := by
+    unfold fNi; rw [hN]
+  have o1' : |fDLon fl full (nl (latOf full m latRef) - fmt m) - dLonOf full m (latOf full m latRef)|
+      ≤ dLonOf full m (latOf full m latRef) * u + 1 / 2 ^ 100 := o1
+  have o2' : 3 / 2 ≤ dLonOf full m (latOf full m latRef) := o2
+  have o3' : dLonOf full m (latOf full m latRef) ≤ 360 := o3
+  obtain ⟨_, idx', crd'⟩ := local_axis R m.lon hm.2 o2' o3' o1' hor
+  have hM := idx' (by linarith [M.lonIdx_lo]) (by linarith [M.lonIdx_hi])
+  have hLon : |fLonOf fl full m (fLatOf fl full m latRef) lonRef
+      - lonOf full m (latOf full m latRef) lonRef| ≤ 1 / 10 ^ 12 := by
+    unfold fLonOf; rw [hNi, hM, lonOf_eq]; exact crd'
+  have near2 : |lonOf full m (latOf full m latRef) lonRef - lonRef| ≤ 200 := by
+    rw [lonOf_eq]; exact le_trans (coord_near m.lon (by linarith)) (by linarith)
+  have hH2 := half_cmp R hLon o2' o3' o1' near2 (lt_of_le_of_lt hδ M.lon_half)
+  -- the branches
+  rw [withRef_eq]
+  unfold fWithRef
+  rw [hNi, hR]
+  by_cases c1 : inLatRange (latOf full m latRef) = false
+  · rw [if_pos c1, if_pos c1]
+    exact ⟨by simp, fun q hq => by cases hq⟩
+  rw [if_neg c1, if_neg c1]
+  by_cases c2 : |latOf full m latRef - latRef| > dLatOf full m / 2
+  · rw [if_pos c2, if_pos (hH1.mpr c2)]
+    exact ⟨by simp, fun q hq => by cases hq⟩
+  rw [if_neg c2, if_neg (fun h => c2 (hH1.mp h))]
+  by_cases c3 : |lonOf full m (latOf full m latRef) lonRef - lonRef| > dLonOf full m (latOf full m latRef) / 2
+  · rw [if_pos c3, if_pos (hH2.mpr c3)]
+    exact ⟨by simp, fun q hq => by cases hq⟩
+  rw [if_neg c3, if_neg (fun h => c3 (hH2.mp h))]
+  refine ⟨by simp, fun q hq => ?_⟩
+  have hq' := (Option.some.inj hq).symm
+  refine ⟨_, rfl, ?_⟩
+  rw [hq']
+  exact ⟨le_trans hLat (by norm_num), le_trans hLon (by norm_num)⟩
+
+/-- **The complete f64 computation of `airborne_position_with_reference` returns (almost) what the exact model
+    returns** (C05): for every rounding function satisfying the standard model, every report with 17-bit fields and
+    every reference with `|lat_ref|, |lon_ref| ≤ 360`, under the margin hypothesis: `None` exactly when the rational
+    model returns `None`, otherwise positions within `10⁻¹¹` degrees on each axis (in fact `10⁻¹²`). -/
+theorem airborne_with_reference_f64_close (fl : ℚ → ℚ) (R : Rounding fl) (m : Msg)
+    (hm : m.lat < 131072 ∧ m.lon < 131072) (latRef lonRef : ℚ) (hlr : |latRef| ≤ 360) (hor : |lonRef| ≤ 360)
+    (M : LocalMargin 360 m latRef lonRef) :
+    (fAirborneWithRef fl m latRef lonRef = none ↔ airborneWithRef m latRef lonRef = .ok none) ∧
+    ∀ q, fAirborneWithRef fl m latRef lonRef = some q → ∃ p : Pos, airborneWithRef m latRef lonRef = .ok (some p) ∧
+      |q.1 - p.lat| ≤ 1 / 10 ^ 11 ∧ |q.2 - p.lon| ≤ 1 / 10 ^ 11 :=
+  withRef_f64_close_at R 360 (Or.inl rfl) m hm latRef lonRef hlr hor (by norm_num) M
+
+/-- the same for `surface_position_with_reference` (`full = 90`) -/
+theorem surface_with_reference_f64_close (fl : ℚ → ℚ) (R : Rounding fl) (m : Msg)
+    (hm : m.lat < 131072 ∧ m.lon < 131072) (latRef lonRef : ℚ) (hlr : |latRef| ≤ 360) (hor : |lonRef| ≤ 360)
+    (M : LocalMargin 90 m latRef lonRef) :
+    (fSurfaceWithRef fl m latRef lonRef = none ↔ surfaceWithRef m latRef lonRef = .ok none) ∧
+    ∀ q, fSurfaceWithRef fl m latRef lonRef = some q → ∃ p : Pos, surfaceWithRef m latRef lonRef = .ok (some p) ∧
+      |q.1 - p.lat| ≤ 1 / 10 ^ 11 ∧ |q.2 - p.lon| ≤ 1 / 10 ^ 11 :=
+  withRef_f64_close_at R 90 (Or.inr rfl) m hm latRef lonRef hlr hor (by norm_num) M
+
+theorem localMarginAt_iff (δ full : ℚ) (m : Msg) (latRef lonRef : ℚ) : LocalMarginAt δ full m latRef lonRef ↔
+    (((⌊gIdxArg latRef (dLatOf full m) m.lat⌋ : ℚ) + δ ≤ gIdxArg latRef (dLatOf full m) m.lat) ∧
+     (gIdxArg latRef (dLatOf full m) m.lat + δ < (⌊gIdxArg latRef (dLatOf full m) m.lat⌋ : ℚ) + 1) ∧
+     δ < |latOf full m latRef - 90| ∧ δ < |latOf full m latRef + 90| ∧
+     δ < abs (|latOf full m latRef - latRef| - dLatOf full m / 2) ∧ nlFar δ (latOf full m latRef) ∧
+     ((⌊gIdxArg lonRef (dLonOf full m (latOf full m latRef)) m.lon⌋ : ℚ) + δ
+        ≤ gIdxArg lonRef (dLonOf full m (latOf full m latRef)) m.lon) ∧
+     (gIdxArg lonRef (dLonOf full m (latOf full m latRef)) m.lon + δ
+        < (⌊gIdxArg lonRef (dLonOf full m (latOf full m latRef)) m.lon⌋ : ℚ) + 1) ∧
+     δ < abs (|lonOf full m (latOf full m latRef) lonRef - lonRef| - dLonOf full m (latOf full m latRef) / 2)) :=
+  ⟨fun M => ⟨M.1, M.2, M.3, M.4, M.5, M.6, M.7, M.8, M.9⟩,
+   fun ⟨a, b, c, d, e, f, g, h, i⟩ => ⟨a, b, c, d, e, f, g, h, i⟩⟩
+
+instance (δ full : ℚ) (m : Msg) (latRef lonRef : ℚ) : Decidable (LocalMarginAt δ full m latRef lonRef) :=
+  decidable_of_iff _ (localMarginAt_iff δ full m latRef lonRef).symm
+
 end Rs1090.Proofs.CprFloat
